@@ -11,7 +11,7 @@ import itertools
 ID = 'C16'
 RULE = ('part T: all strings over {a,b,1,$,space,-,CJK} up to the length bound, both tokenizers; part M: all '
         'dictionaries of 1-2 phrases from the closed phrase set x all queries up to the length bound x both '
-        'tokenizers x {list, dict with separate ids, dict with one id}. A case is non-trivial when the tokenizer '
+        'tokenizers x {list, dict with separate ids, dict with one id, dict listing a phrase under two ids}. A case is non-trivial when the tokenizer '
         'emits >= 2 tokens (T) or the reference matcher expects >= 1 occurrence (M); distinct = distinct '
         '(part, tokenizer, form, dictionary, query) tuples, which are distinct leaves by construction.')
 ASSUMPTIONS = ['reference tokenizer: maximal runs of non-CJK alphanumerics (unit tokenizer: "$" is a word '
@@ -47,9 +47,9 @@ def configure(tier, seed):
         pair_pool = [p for p in phrases if len(p) <= 2] + ['a b', 'a 1', 'a$1', '1 a', '$ 1', 'a a', 'ab1', '1$a']
     dicts = [(p,) for p in phrases] + list(itertools.combinations(pair_pool, 2))
     CFG.update(tier=tier, strings_t=_strings(SIGMA_T, lt), queries=_strings(sig_q, lq_eff), dicts=dicts,
-               forms=['list', 'dict_sep', 'dict_same'], strategies=['TrieTree'])
+               forms=['list', 'dict_sep', 'dict_same', 'dict_dup'], strategies=['TrieTree'])
     n_t = 2 * len(CFG['strings_t'])
-    n_m = 2 * 3 * len(dicts) * len(CFG['queries'])
+    n_m = 2 * 4 * len(dicts) * len(CFG['queries'])
     return {'shard_depth': 99, 'space_size': n_t + n_m, 'progress': 200,
             'bounds': {'tokenizer_alphabet': SIGMA_T, 'tokenizer_max_len': lt, 'matcher_query_alphabet': sig_q,
                        'matcher_query_max_len': lq_eff, 'phrases': len(phrases), 'dictionaries': len(dicts),
@@ -165,9 +165,13 @@ def _matcher(kind, form, d):
     elif form == 'dict_sep':
         m.init({'id%d' % i: [p] for i, p in enumerate(d)})
         pids = [(p, 'id%d' % i) for i, p in enumerate(d)]
-    else:
+    elif form == 'dict_same':
         m.init({'k': list(d)})
         pids = [(p, 'k') for p in d]
+    else:
+        # the first phrase is listed under two canonical ids
+        m.init({'id0': list(d), 'id1': [d[0]]})
+        pids = [(p, 'id0') for p in d] + [(d[0], 'id1')]
     return m, pids
 
 
